@@ -113,3 +113,21 @@ Definition without_body (r : response) : response :=
      r_content_length := r_content_length r; r_body := [] |}.
 Definition not_modified (q : request) : bool :=
   should_return_304 (q_etag q) (q_inm q) (q_ims q) (q_mtime q).
+
+(* ---------- If-None-Match as a list of entity tags (RFC 7232 3.2) ---------- *)
+Inductive entity_tag : list N -> Prop :=
+| ETStrong b : ~ In 34%N b -> entity_tag (34%N :: b ++ [34%N])                       (* DQUOTE *etagc DQUOTE *)
+| ETWeak b : ~ In 34%N b -> entity_tag (87%N :: 47%N :: 34%N :: b ++ [34%N]).        (* W/ DQUOTE ... DQUOTE *)
+
+(* OWS "," OWS between the elements *)
+Definition list_sep (s : list N) : Prop := Forall (fun c => c = 32%N \/ c = 9%N \/ c = 44%N) s.
+
+(* sep0 tag1 sep1 tag2 sep2 ... *)
+Fixpoint inm_header (sep0 : list N) (items : list (list N * list N)) : list N :=
+  match items with
+  | [] => sep0
+  | (tag, sep) :: rest => sep0 ++ tag ++ inm_header sep rest
+  end.
+
+(* weak comparison (RFC 7232 2.3.2): equal after removing a W/ prefix *)
+Definition weak_equal (x y : list N) : bool := text_eqb (etag_val x) (etag_val y).
